@@ -49,7 +49,7 @@ CHECKS = {
  "C12": ("E3", "exploration",
    "bounded-exhaustive hello grammar through real session establishment, both exchange orders",
    "Every hello of the grammar {base subsets} x {session-id shapes incl. 0, 2^32, duplicates, missing} x {namespace spellings} x element order x duplicate/truncated elements, in both orders of the simultaneous hello exchange; established iff well-formed, valid id and a base version in common with what the client put on the wire; version = highest common; the first request must be framed as the negotiated version requires.",
-   "MemTransport level; the framing clause on the real transports is added by E4.", "DESIGN.md §2 E3 C12"),
+   "Hello matrix at MemTransport level plus a conforming peer on each real transport (TLS, SSH, JunosLocal) that frames as the negotiated version requires.", "DESIGN.md §2 E3 C12"),
  "C10": ("E3", "exploration",
    "bounded-exhaustive parameter x adversarial-value enumeration judged by an independent XML parser (python expat)",
    "Every text-valued parameter of every operation (tokens, XPath select, instance names, log messages, text/set/JSON payloads, URLs), pairs of parameters, verbatim fragments and the agent's own policy payloads (names x expressions, update and delete) are serialised by the real request path for every value of an adversarial alphabet; expat must see exactly one well-formed document followed by the only occurrence of the delimiter and recover each value unchanged.",
@@ -82,6 +82,14 @@ CHECKS = {
    "enumeration of unevaluable-policy kinds x policy sets x observed evaluation orders, real agent end to end",
    "Policy sets of 2-3 managed policies containing 1-2 members that are valid RPSL but unevaluable (unknown as-set, IRR error answers, PeerAS, AS-path regular expressions, attribute matches), run through the real agent against fake Junos + fake IRRd and repeated until every evaluation order of the evaluable members was observed; the run must exit 0 with one commit, every other policy installed with exactly its oracle set and nothing installed for the unevaluable one. The evaluation stage is also checked in isolation.",
    "Evaluation order (HashMap iteration) is observed from the IRR query log, not forced; the repeat cap is reported.", "DESIGN.md §2 E6 C15"),
+ "C06": ("E4", "exploration",
+   "exhaustive enumeration of stream segmentations (cut positions, cut subsets of delimiter zones, groupings) against the real transports",
+   "On the real TLS (loopback, client certificates), SSH (netconf subsystem) and JunosLocal (stand-in cli, hook H2) transports the server hello and 1-3 pipelined replies are delivered in transport units cut at every position in and around each delimiter (every position of the stream in the thorough tier), at pairs and subsets of delimiter-zone cuts, byte by byte, and grouped several-per-unit; a unit is released only after the client consumed the previous one, and nothing follows the last byte of a message until it was handed to the session layer. Results must be exactly the messages, once, in order.",
+   "Loopback only; read segmentation is verified through the client's own trace events on TLS and the pipe, and is by construction one packet per unit on SSH.", "DESIGN.md §2 E4 C06"),
+ "C07": ("E4", "fault_enumeration",
+   "exhaustive enumeration of close points x close kinds x outstanding requests against the real transports",
+   "On each real transport and for each close kind (clean / EOF / abort) the peer closes after every sampled (thorough: every) prefix of the hello, while the established session is idle, with 0-2 requests outstanding before any reply byte, after prefixes of the reply stream and between two replies; then a further request is issued. Every pending and subsequent operation must resolve within 2.5 s, without zero-length-read loops or CPU burn, and Ok is accepted only for replies that were completely delivered before the close.",
+   "Real-time watchdog with three orders of magnitude of slack over loopback latency.", "DESIGN.md §2 E4 C07"),
 }
 
 NOT_YET = "check not built yet (construction in progress; see DESIGN.md)"
